@@ -18,7 +18,7 @@ template <int S> struct Runner {
   typedef typename Sp::MatrixType Mat;
   static const int M = 2 * S;
   Ctx &c; const std::string &unit;
-  Sp reused; bool toggle = false;  // long-lived object re-fitted with every problem of the unit through alternating overloads
+  Sp reused; bool toggle = false; int nth = 0;  // long-lived object re-fitted with every problem of the unit through alternating overloads
   Runner(Ctx &c_, const std::string &u) : c(c_), unit(u) {}
   void fail(const std::string &what, const std::string &detail) {
     c.st.violate(unit, fmt("%s D=%d: %s: %s", order_name(S), D, what.c_str(), detail.c_str()), {{"order", order_name(S)}, {"what", what}});
@@ -59,8 +59,12 @@ template <int S> struct Runner {
     ++c.st.comparisons; c.st.obs(fmt("public/%s", order_name(S)), res);
     if (res > THR) fail("energy-public", fmt("getEnergy %.17g exact integral %.17Lg res %.3g | %s", got, E, res, describe(p).c_str()));
     { if (reused.isInitialized()) (void)reused.getEnergy();
+      // every third problem the long-lived object first holds the SAME segment count, start and end time with the durations in reversed order
+      // (other inner knots): the trajectory it publishes afterwards must carry the new knots (seeded change C04-m8)
+      if (p.N >= 2 && (++nth % 3) == 0) { Prob r = p; r.T.assign(p.T.rbegin(), p.T.rend()); reused.update(r.T, r.P, r.t0, r.bc); (void)reused.getEnergy(); (void)reused.getTrajectory().evaluate(r.t0, 1); }
       if (toggle) reused.update(p.T, p.P, p.t0, p.bc); else { std::vector<double> tp = p.timepoints(); bool exact = true; for (int i = 0; i < p.N; ++i) exact = exact && (tp[i + 1] - tp[i] == p.T[i]); if (exact) reused.update(tp, p.P, p.bc); else reused.update(p.T, p.P, p.t0, p.bc); }
       toggle = !toggle; double e1 = reused.getEnergy(), e2 = reused.getEnergy(); ++c.st.comparisons;
+      if (reused.getTrajectory().getBreakpoints() != sp.getTrajectory().getBreakpoints() || !mat_bits_equal(reused.getTrajectory().getCoefficients(), C)) fail("energy-reused-object", fmt("the trajectory a re-fitted object publishes (knots / polynomials) is not the one its energy refers to | %s", describe(p).c_str()));
       if (!bits_equal(e1, got) || !bits_equal(e2, got)) fail("energy-reused-object", fmt("a re-fitted object reports %.17g (then %.17g), a fresh one %.17g | %s", e1, e2, got, describe(p).c_str())); }
     if ((LD)got < -THR * mag) fail("energy-negative", fmt("getEnergy %.17g | %s", got, describe(p).c_str()));
     // sum over coordinates: energy of the D-dim spline = sum of the energies of the 1-D splines of its coordinates
